@@ -814,6 +814,12 @@ fn gen_packed(line: &str, rs: &mut String, facts: &mut String) {
     writeln!(rs, "const MINIMUM_LEN: usize = {};", raw.minimum_len).unwrap();
     writeln!(rs, "fn pats() -> &'static [&'static [u8]] {{ &PATS }}").unwrap();
     writeln!(rs, "fn searcher() -> aho_corasick::packed::Searcher {{ {} }}", packed_expr(&raw, spec.pats.len(), "", teddy_bytes)).unwrap();
+    if raw.teddy_variant != 0 && teddy_bytes != 0 {
+        writeln!(rs, "fn find_in(hay: &[u8], span: aho_corasick::Span) -> Option<aho_corasick::Match> {{ aho_corasick::verif::packed::api::avx2_find_in({}, vec![{}], &ORDER, {}, {}, {}, &TBS, &TMASKS, &TBS16, &TMASKS256, hay, span).expect(\"span shorter than the vector path's minimum length\") }}",
+            raw.kind,
+            (0..spec.pats.len()).map(|i| format!("aho_corasick::verif::packed::pattern::pat(&P{})", i)).collect::<Vec<_>>().join(", "),
+            raw.patterns_minimum_len, raw.teddy_variant, teddy_bytes).unwrap();
+    }
     writeln!(rs, "}}").unwrap();
     writeln!(rs, "}}").unwrap();
     // fidelity: the rebuilt searcher must dump identically
